@@ -268,9 +268,9 @@ theorem ratecalc_window_false :
 words, fixed); packets, ticks and feedback do not change the size vector. -/
 theorem report_size_constant (l : List Nat) (closed : Bool) (g ssrc seq : Nat) (lost : Bool) (bound : List Nat) :
     K.step (.rr l) closed (.packet g ssrc seq lost) = .rr l ∧ K.step (.rr l) closed (.adv g) = .rr l ∧
-    K.step (.rr l) closed (.feedback bound) = .rr l ∧
+    K.step (.rr l) closed (.feedback g bound) = .rr l ∧
     K.step (.sr l) closed (.packet g ssrc seq lost) = .sr l ∧ K.step (.sr l) closed (.adv g) = .sr l ∧
-    K.step (.sr l) closed (.feedback bound) = .sr l := by
+    K.step (.sr l) closed (.feedback g bound) = .sr l := by
   refine ⟨rfl, ?_, rfl, rfl, ?_, rfl⟩ <;> (simp only [K.step]; split <;> rfl)
 
 /-- ★ unbind releases the stream record. -/
